@@ -27,7 +27,7 @@ RULE = ("random release tables (1-12 rows, 1-5 distinct times on the model time 
         "time-typed particle variable, header in file or names in configuration, X/Y or lon/lat), discrete and continuous "
         "(frequency 1-4 steps), forward and reversed, still water, output every step. Non-trivial: at least two release "
         "events at different steps or rows outside the window or mult != 1; distinct by (mode, direction, step/mult pattern).")
-MANDATORY = ["release_after_particles_were_removed", "discrete_forward", "discrete_reversed", "continuous_forward", "continuous_reversed",
+MANDATORY = ["file_with_XY_and_lonlat", "table_with_17_or_more_rows_several_per_time", "release_after_particles_were_removed", "discrete_forward", "discrete_reversed", "continuous_forward", "continuous_reversed",
              "row_before_start", "row_at_or_after_stop", "mult_zero", "mult_gt1", "several_rows_per_time", "lonlat_position",
              "names_in_config", "particle_variable_column", "release_hook_events", "time_typed_column_values", "column_with_configured_default"]
 ASSUMPTIONS = ["release times on the model time grid and sorted in simulation order (as the property quantifies)",
@@ -80,12 +80,17 @@ def gen_case(seed: int, idx: int) -> dict[str, Any]:
     if rng.random() < 0.35:
         extras.append(["hatch", "time", "particle"])  # a time-typed extra column (besides release_time)
     rel_time_pv = rng.random() < 0.5
+    both = bool(idx % 7 == 4) and not lonlat
+    if both:
+        # grid coordinates AND longitude/latitude in the file (documented: X, Y are used); lon/lat are then ordinary columns carried by the particles
+        extras = [["lon", "float", "particle"], ["lat", "float", "particle"]] + extras
+    big = bool(idx % 5 == 3)  # long tables: many differing rows per release time
     imax, jmax = 12, 10
     cols = ["release_time"] + (["mult"] if use_mult else []) + (["lon", "lat"] if lonlat else ["X", "Y"]) + ["Z"] + [e[0] for e in extras]
     rows = []
     rid = 100
     for s in steps:
-        nrow = int(rng.choice([1, 1, 2, 3]))
+        nrow = int(rng.integers(9, 14)) if big else int(rng.choice([1, 1, 2, 3]))
         for _ in range(nrow):
             t = str(tadd(start, sgn * s * dt))
             x = float(np.round(rng.uniform(2.0, imax - 3.0), 3))
@@ -103,6 +108,10 @@ def gen_case(seed: int, idx: int) -> dict[str, Any]:
                 if e[0] == "rid":
                     rid += 1
                     row.append(rid)
+                elif e[0] == "lon":  # coordinates of another point than (x, y)
+                    row.append(float(np.round(5.0 + 0.02 * (x + 1.7), 6)))
+                elif e[0] == "lat":
+                    row.append(float(np.round(60.0 + 0.01 * (y - 1.2), 6)))
                 elif e[1] == "time":
                     row.append(str(tadd(start, -int(rng.integers(0, 10**6)))))
                 else:
@@ -110,7 +119,7 @@ def gen_case(seed: int, idx: int) -> dict[str, Any]:
             rows.append(row)
     return dict(idx=idx, dt=dt, nsteps=nsteps, reversed=rev, continuous=cont, freq_steps=freq_steps, start=start, stop=stop,
                 columns=cols, rows=rows, header=header, extras=extras, lonlat=lonlat, use_mult=use_mult,
-                release_time_pv=rel_time_pv, imax=imax, jmax=jmax)
+                release_time_pv=rel_time_pv, imax=imax, jmax=jmax, both=both, big=big)
 
 
 def gen_cases(tier: str, seed: int) -> list[dict[str, Any]]:
@@ -263,6 +272,8 @@ def run_case(case: dict[str, Any], wd: Path) -> dict[str, Any]:
     sit["names_in_config"] = int(not case["header"])
     sit["particle_variable_column"] = int(any(e[2] == "particle" for e in case["extras"]) or case["release_time_pv"])
     sit["release_hook_events"] = len(events)
+    sit["file_with_XY_and_lonlat"] = int(bool(case.get("both")))
+    sit["table_with_17_or_more_rows_several_per_time"] = int(len(case["rows"]) >= 17 and bool(case.get("big")))
     sit["release_after_particles_were_removed"] = int(len(set(killed_at.values())) >= 2)
     sit["column_with_configured_default"] = int(case["idx"] % 2 == 1 and any(e[1] != "time" for e in case["extras"]))
     counters = {"ParticleReleaser.update calls": nhook, "expected_particles": len(exp)}
